@@ -1,13 +1,13 @@
 package main
 
 import (
-	"strings"
 	"encoding/binary"
 	"errors"
 	"fmt"
 	"io"
 	"os"
 	"path/filepath"
+	"strings"
 
 	"github.com/thomasjungblut/go-sstables/recordio"
 )
@@ -33,6 +33,7 @@ type rioCase struct {
 	Seeks    []int   `json:"seeks"`
 	Damage   string  `json:"damage"` // "", "trunc", "header", "fileheader"
 	DmgStep  int     `json:"dmgstep"`
+	Legacy   int     `json:"legacy"` // 1..3: the file is laid out in that older format version by the harness (the library only reads these)
 }
 
 type rioIn struct {
@@ -93,68 +94,90 @@ func runRIO(args []string) error {
 	for ci, c := range in.Cases {
 		path := filepath.Join(in.Dir, fmt.Sprintf("f%d.rio", ci))
 		tr.emit(M{"t": "reset", "case": ci})
-		wopts := []recordio.FileWriterOption{recordio.Path(path), recordio.CompressionType(c.Comp)}
-		if c.WBuf > 0 {
-			wopts = append(wopts, recordio.BufferSizeBytes(c.WBuf))
-		}
-		if c.DirectIO {
-			wopts = append(wopts, recordio.DirectIO())
-		}
-		w, err := recordio.NewFileWriter(wopts...)
-		if err != nil {
-			return err
-		}
-		if err := w.Open(); err != nil {
-			tr.emit(M{"t": "w", "op": "open", "rec": "", "j": 0, "off": 0, "size": 0, "target": 0, "err": err.Error()})
-			continue
-		}
 		var offs []uint64 // start offsets of the surviving records
-		closed := false
-		for _, op := range c.Ops {
-			switch op.Op {
-			case "write", "writesync":
-				var off uint64
-				var err error
-				if op.Op == "write" {
-					off, err = w.Write(rb(op.Rec))
-				} else {
-					off, err = w.WriteSync(rb(op.Rec))
-				}
-				es := ""
-				if err != nil {
-					es = err.Error()
-				} else {
-					offs = append(offs, off)
-				}
-				tr.emit(M{"t": "w", "op": op.Op, "rec": op.Rec, "j": 0, "off": int(off), "size": int(w.Size()), "target": 0, "err": es})
-			case "seek":
-				var target uint64
-				if op.J >= len(offs) {
-					target = w.Size()
-				} else {
-					target = offs[op.J]
-				}
-				err := w.Seek(target)
-				es := ""
-				if err != nil {
-					es = err.Error()
-				} else if op.J < len(offs) {
-					offs = offs[:op.J]
-				}
-				tr.emit(M{"t": "w", "op": "seek", "rec": "", "j": op.J, "off": 0, "size": int(w.Size()), "target": int(target), "err": es})
-			case "close":
-				err := w.Close()
-				closed = true
-				es := ""
-				if err != nil {
-					es = err.Error()
-				}
-				st, _ := os.Stat(path)
-				tr.emit(M{"t": "w", "op": "close", "rec": "", "j": 0, "off": 0, "size": int(st.Size()), "target": 0, "err": es, "dio": c.DirectIO})
+		realWriter := func() ([]uint64, bool, error) {
+			var offs []uint64
+			wopts := []recordio.FileWriterOption{recordio.Path(path), recordio.CompressionType(c.Comp)}
+			if c.WBuf > 0 {
+				wopts = append(wopts, recordio.BufferSizeBytes(c.WBuf))
 			}
+			if c.DirectIO {
+				wopts = append(wopts, recordio.DirectIO())
+			}
+			w, err := recordio.NewFileWriter(wopts...)
+			if err != nil {
+				return nil, false, err
+			}
+			if err := w.Open(); err != nil {
+				tr.emit(M{"t": "w", "op": "open", "rec": "", "j": 0, "off": 0, "size": 0, "target": 0, "err": err.Error()})
+				return nil, false, nil
+			}
+			closed := false
+			for _, op := range c.Ops {
+				switch op.Op {
+				case "write", "writesync":
+					var off uint64
+					var err error
+					if op.Op == "write" {
+						off, err = w.Write(rb(op.Rec))
+					} else {
+						off, err = w.WriteSync(rb(op.Rec))
+					}
+					es := ""
+					if err != nil {
+						es = err.Error()
+					} else {
+						offs = append(offs, off)
+					}
+					tr.emit(M{"t": "w", "op": op.Op, "rec": op.Rec, "j": 0, "off": int(off), "size": int(w.Size()), "target": 0, "err": es})
+				case "seek":
+					var target uint64
+					if op.J >= len(offs) {
+						target = w.Size()
+					} else {
+						target = offs[op.J]
+					}
+					err := w.Seek(target)
+					es := ""
+					if err != nil {
+						es = err.Error()
+					} else if op.J < len(offs) {
+						offs = offs[:op.J]
+					}
+					tr.emit(M{"t": "w", "op": "seek", "rec": "", "j": op.J, "off": 0, "size": int(w.Size()), "target": int(target), "err": es})
+				case "close":
+					err := w.Close()
+					closed = true
+					es := ""
+					if err != nil {
+						es = err.Error()
+					}
+					st, _ := os.Stat(path)
+					tr.emit(M{"t": "w", "op": "close", "rec": "", "j": 0, "off": 0, "size": int(st.Size()), "target": 0, "err": es, "dio": c.DirectIO})
+				}
+			}
+			if !closed {
+				w.Close()
+			}
+			return offs, true, nil
+
 		}
-		if !closed {
-			w.Close()
+		if c.Legacy > 0 {
+			var lerr error
+			offs, lerr = writeLegacy(tr, path, c, rb)
+			if lerr != nil {
+				return lerr
+			}
+		} else {
+			var ok bool
+			var werr error
+			offs, ok, werr = realWriter()
+			if werr != nil {
+				return werr
+			}
+			if !ok {
+				continue
+			}
 		}
 		data, err := os.ReadFile(path)
 		if err != nil {
@@ -266,6 +289,9 @@ func runRIO(args []string) error {
 						}
 					}
 					froms = append(froms, len(data)-1, len(data), len(data)+1)
+				}
+				if c.Legacy == 1 {
+					froms = nil // SeekNext is documented as unsupported below version 2
 				}
 				for _, o := range froms {
 					roff, b, err := mr.SeekNext(uint64(o))
@@ -379,4 +405,77 @@ func headerLen(b []byte) int {
 		n += k
 	}
 	return n
+}
+
+// writeLegacy lays the records that survive the writer program out in format version 1, 2 or 3 (framing as documented in the repository's
+// recordio/README.md and implemented by the read side): file header = version + compression code, record = header + stored payload.
+// It emits the same "w" lines the real writer would have produced, with the offsets of this layout.
+func writeLegacy(tr *traceWriter, path string, c rioCase, rb func(string) []byte) ([]uint64, error) {
+	var toks []string
+	for _, op := range c.Ops {
+		switch op.Op {
+		case "write", "writesync":
+			toks = append(toks, op.Rec)
+		case "seek":
+			if op.J < len(toks) {
+				toks = toks[:op.J]
+			}
+		}
+	}
+	comp, err := recordio.NewCompressorForType(c.Comp)
+	if err != nil {
+		return nil, err
+	}
+	file := make([]byte, 8)
+	binary.LittleEndian.PutUint32(file[0:4], uint32(c.Legacy))
+	binary.LittleEndian.PutUint32(file[4:8], uint32(c.Comp))
+	var offs []uint64
+	for _, t := range toks {
+		rec := rb(t)
+		stored := rec
+		if comp != nil && rec != nil {
+			if stored, err = comp.Compress(rec); err != nil {
+				return nil, err
+			}
+		}
+		clen := uint64(0)
+		if comp != nil {
+			clen = uint64(len(stored))
+		}
+		off := uint64(len(file))
+		switch c.Legacy {
+		case 1:
+			h := make([]byte, 20)
+			binary.LittleEndian.PutUint32(h[0:4], recordio.MagicNumberSeparator)
+			binary.LittleEndian.PutUint64(h[4:12], uint64(len(rec)))
+			binary.LittleEndian.PutUint64(h[12:20], clen)
+			file = append(file, h...)
+		case 2:
+			file = binary.AppendUvarint(file, recordio.MagicNumberSeparatorLong)
+			file = binary.AppendUvarint(file, uint64(len(rec)))
+			file = binary.AppendUvarint(file, clen)
+		case 3:
+			file = binary.AppendUvarint(file, recordio.MagicNumberSeparatorLong)
+			if rec == nil {
+				file = append(file, 1)
+				clen = 0
+			} else {
+				file = append(file, 0)
+			}
+			file = binary.AppendUvarint(file, uint64(len(rec)))
+			file = binary.AppendUvarint(file, clen)
+		default:
+			return nil, fmt.Errorf("legacy version %d", c.Legacy)
+		}
+		if !(c.Legacy == 3 && rec == nil) {
+			file = append(file, stored...)
+		}
+		offs = append(offs, off)
+		tr.emit(M{"t": "w", "op": "write", "rec": t, "j": 0, "off": int(off), "size": len(file), "target": 0, "err": ""})
+	}
+	if err := os.WriteFile(path, file, 0o600); err != nil {
+		return nil, err
+	}
+	tr.emit(M{"t": "w", "op": "close", "rec": "", "j": 0, "off": 0, "size": len(file), "target": 0, "err": "", "dio": false})
+	return offs, nil
 }
